@@ -207,21 +207,24 @@ fn scoped_seq(roots: &Roots, doc: &yrs::Doc) -> String {
     .to_string()
 }
 
-/// True if some map chain (map entries / XML attributes of a live scoped type) holds a deleted, not redone entry that no
-/// entry of the undo / redo stacks names in its deletions, with an older deleted entry to its left: the state in which the
-/// conflict rule of `redo` refuses to restore the older one (the walk over the right neighbours of the entry to restore
-/// passes redone entries, entries the call deletes itself and entries some stack entry deleted - and stops at this one).
-/// An entry whose deletion *is* still on a stack does not make the state part of the finding: the rule has to pass it.
-fn shadowed_chain(roots: &Roots, doc: &yrs::Doc, mgr: &yrs::undo::UndoManager<()>) -> bool {
+/// The state in which the conflict rule of `redo` refuses, on the unchanged tree, to restore a map entry / XML attribute:
+/// on some key's chain of a live scoped type there is an entry X that the call was to restore (deleted, not redone, named
+/// by a stack entry before the call and by none after it - its entry was popped) and, to its right (newer), an entry Y
+/// that is deleted, not redone and named by no stack entry after the call (it may have been named by an entry that the
+/// same call popped and passed over). The walk over X's right neighbours passes redone entries, entries the call deletes
+/// itself and entries that some remaining stack entry deleted, and stops at Y.
+/// A refusal in front of a neighbour whose deletion *is* on a stack is not part of the finding: the rule has to pass it.
+fn shadowed_chain<F: Fn(&yrs::ID) -> bool>(roots: &Roots, doc: &yrs::Doc, mgr: &yrs::undo::UndoManager<()>, named_before: F) -> bool {
     let txn = doc.transact();
-    let named = |id: &yrs::ID| mgr.undo_stack().iter().chain(mgr.redo_stack().iter()).any(|e| e.deletions().contains(id));
+    let named_after = |id: &yrs::ID| mgr.undo_stack().iter().chain(mgr.redo_stack().iter()).any(|e| e.deletions().contains(id));
     for (h, _) in live_types(roots, &txn) {
         for k in 0..6u8 {
             for key in [crate::ops::key_name(k), format!("x{}", k)] {
                 if let Some(chain) = yrs::verif::map_chain(&txn, &h.id(), &key) {
                     // the hook lists the chain from its newest (rightmost) entry leftwards
-                    for (i, b) in chain.iter().enumerate() {
-                        if b.deleted && b.redone.is_none() && !named(&b.id) && chain[i + 1..].iter().any(|o| o.deleted) {
+                    for (i, x) in chain.iter().enumerate() {
+                        let refused = x.deleted && x.redone.is_none() && named_before(&x.id) && !named_after(&x.id);
+                        if refused && chain[..i].iter().any(|y| y.deleted && y.redone.is_none() && !named_after(&y.id)) {
                             return true;
                         }
                     }
@@ -465,6 +468,8 @@ pub fn run_undo(prog: &UProgram) -> UResult {
                     log.push(format!("      undo stack {:?} ; redo stack {:?}", mgr.undo_stack(), mgr.redo_stack()));
                     log.push(format!("      store {:?}", yrs::verif::store_blocks(&doc.transact()).iter().map(|b| format!("{}#{}:{}{}{}", b.id.client.get(), b.id.clock, b.len, if b.deleted { "d" } else { "" }, b.redone.map(|r| format!("->{}#{}", r.client.get(), r.clock)).unwrap_or_default())).collect::<Vec<_>>()));
                 }
+                // what the stack entries name before the call (the popped entry is gone afterwards)
+                let named_before: Vec<_> = mgr.undo_stack().iter().chain(mgr.redo_stack().iter()).map(|e| e.deletions().clone()).collect();
                 let res = catch(|| if is_undo { mgr.undo_blocking() } else { mgr.redo_blocking() });
                 let ok = match res {
                     Err(p) => fail!(format!("panic:{}", p.split(' ').next().unwrap_or("")), format!("{} panicked: {}", if is_undo { "undo" } else { "redo" }, p)),
@@ -526,7 +531,7 @@ pub fn run_undo(prog: &UProgram) -> UResult {
                         }
                         let got_tree: serde_json::Value = serde_json::from_str(&scoped_seq(&roots, &doc)).unwrap_or_default();
                         let want_tree: serde_json::Value = serde_json::from_str(want_seq).unwrap_or_default();
-                        let shadowed = shadowed_chain(&roots, &doc, &mgr);
+                        let shadowed = shadowed_chain(&roots, &doc, &mgr, |id: &yrs::ID| named_before.iter().any(|d| d.contains(id)));
                         let restored = restored_container(&doc);
                         let classify = |got: &serde_json::Value, want: &serde_json::Value| -> &'static str {
                             let only_maps = only_missing_keys(got, want);
